@@ -189,9 +189,26 @@ func c13Run(store string, hist []c13Op, rep *Report) (viol, detail string, trace
 func c13(env *Env, rep *Report) {
 	alpha := c13Alphabet()
 	rep.Rule = fmt.Sprintf("(1) every browser history up to depth d over a %d-operation alphabet {GET /connect from browser A, from browser B, clock +121 s, GET /callback in browser A with state in {issued to A, issued to B, never issued, issued before the last clock jump} x code behaviour in {valid ID token carrying the user name under preferred_username / unique_name / upn / username, IdP refuses the code, no id_token, signature by another key, wrong issuer, wrong audience, expired, no user-name claim}} against the real router pieces (EnrichContext, Authenticated, HandleCallback, HandleDownload) with a scripted IdP, for the cookie store (quick d=3) and the file store (quick d=2; thorough 4 and 3); after every step both browsers are observed and compared with the reference (authenticated iff some callback passed every check with a state issued <= 120 s ago; user == claim). "+
-		"(2) every single-character substitution and truncation of a valid authenticated session cookie, a cookie of an instance with other keys, and (file store) a valid cookie whose file was deleted never observe an authenticated session. (3) identity contents {user names incl. e-mail, non-ASCII, 300 characters} x X-Forwarded-For chains {none,1,3} x access tokens up to 3 KiB are restored field by field on the next request. distinct_nontrivial = histories + cookies + identities evaluated.", len(alpha))
+		"(2) every single-character substitution and truncation of a valid authenticated session cookie, a cookie of an instance with other keys, and (file store) a valid cookie whose file was deleted never observe an authenticated session. (3) identity contents {user names incl. e-mail, non-ASCII, 300 characters} x X-Forwarded-For chains {none,1,3} x access tokens up to 3 KiB are restored field by field on the next request. (4) two browsers logging in concurrently, the session store wrapped so that entering Save is a scheduling point: every schedule up to preemption bound 2, both stores; each browser's session must restore its own identity. distinct_nontrivial = histories + cookies + identities + schedules evaluated.", len(alpha))
 	rep.Assumptions = append(rep.Assumptions, "the state store's clock is the harness clock (go-cache copy); the session cookie's own 120 s lifetime is enforced by securecookie against real time and is not advanced",
 		"a state value issued to another browser or used twice is not excluded by the property and is treated as issued")
+	if env.Replay != nil && env.Replay["concurrent"] != nil {
+		store, _ := env.Replay["store"].(string)
+		var prefix []int
+		if cs, ok := env.Replay["choices"].([]any); ok {
+			for _, c := range cs {
+				if f, ok := c.(float64); ok {
+					prefix = append(prefix, int(f))
+				}
+			}
+		}
+		r := c13ConcRun(store, prefix)
+		fmt.Println("outcome:", r.Outcome)
+		for _, v := range r.Violations {
+			rep.violate(v.Sig, v.Detail, env.Replay)
+		}
+		return
+	}
 	if env.Replay != nil {
 		store, _ := env.Replay["store"].(string)
 		var hist []c13Op
@@ -266,6 +283,7 @@ func c13(env *Env, rep *Report) {
 	rep.Bounds = map[string]any{"alphabet": len(alpha), "depth_cookie_store": dc, "depth_file_store": df}
 	distinct += c13Cookies(env, rep, &n)
 	distinct += c13Identities(env, rep, &n)
+	distinct += c13Conc(env, rep)
 	rep.add("distinct", int64(distinct))
 	rep.add("states", int64(distinct))
 }
